@@ -25,6 +25,10 @@ import traceback
 VERIF = os.path.dirname(os.path.dirname(os.path.abspath(__file__)))
 
 
+# POSIX TZ strings (no tz database needed): UTC, east, west, one with DST rules
+TIME_ZONES = ['UTC', 'PST8', 'JST-9', 'UTC', 'CET-1CEST,M3.5.0,M10.5.0/3', 'EST5EDT,M3.2.0,M11.1.0']
+
+
 def stable_hash(obj) -> str:
   return hashlib.sha1(
       json.dumps(obj, sort_keys=True, default=repr).encode()).hexdigest()[:16]
@@ -80,6 +84,7 @@ class Ctx:
     self.notes = []
     self.max_samples = 3
     self.max_violations = 40
+    self.time_zone = None
 
   # -- case partitioning -------------------------------------------------
   def mine(self, index: int) -> bool:
@@ -116,8 +121,11 @@ class Ctx:
       if any(v['mech'] == mech for v in self.violations):
         self.count('violations_dropped_over_cap:' + mech)
         return
+    case = jsonable(case)
+    if self.time_zone and isinstance(case, dict) and '_tz' not in case:
+      case = dict(case, _tz=self.time_zone)
     self.violations.append({
-        'mech': mech, 'what': what, 'case': jsonable(case),
+        'mech': mech, 'what': what, 'case': case,
         'witness': jsonable(witness)})
 
   def inconclusive_reason(self, reason):
